@@ -341,6 +341,11 @@ func cmdCheck(args []string) int {
 				trusted["assumed contract: "+k] = true
 			}
 		}
+		if len(lemObs) > 0 {
+			for _, ax := range P.contracts.Axioms {
+				trusted["axiom "+ax.Label+": "+ax.Text] = true
+			}
+		}
 		for _, k := range P.assumed {
 			trusted["contract assumed, not yet verified: "+k] = true
 		}
